@@ -10,10 +10,12 @@ Open Scope Z_scope.
 (* one call of the history:
    [SSet P a add keys_only]: set_input(var, P, a); [add]: also run calculate_add(var, P);
      [keys_only]: compare known periods only (the step is not exact in binary32 and ends its history);
-   [SDel P]: delete_arrays(var, P) *)
+   [SDel P]: delete_arrays(var, P);
+   [SCalc P]: calculate(var, t) for every definition-period piece t of P *)
 Inductive step :=
   | SSet (P : period) (a : arr) (add keys_only : bool)
-  | SDel (P : option period).
+  | SDel (P : option period)
+  | SCalc (P : period).
 
 Inductive case :=
   | KHist (v : var) (n : Z) (steps : list step).
@@ -53,6 +55,11 @@ Fixpoint run_hist (v : var) (n : Z) (h : holder) (steps : list step) : list obs 
       (if keys_only then OL [status; size; okeys (hdiff h h'); ONone]
        else OL [status; size; oholder (hdiff h h'); add])
         :: run_hist v n h' rest
+  | SCalc P :: rest =>
+      let r := calculate_each v n h P in
+      let h' := match r with Ok h' => h' | Err _ => h end in
+      let status := match r with Ok _ => OZ 0 | Err e => OErr e end in
+      OL [status; OZ (Z.of_nat (List.length h')); oholder (hdiff h h'); ONone] :: run_hist v n h' rest
   | SDel P :: rest =>
       let h' := delete_arrays v h P in
       OL [OZ 0; OZ (Z.of_nat (List.length h')); okeys h'; ONone] :: run_hist v n h' rest
